@@ -21,6 +21,9 @@ import time
 VERIF = os.path.dirname(os.path.dirname(os.path.abspath(__file__)))
 WT = os.environ.get("SEEDED_WT", "/tmp/verif-seeded-wt")
 ALT = os.environ.get("SEEDED_ALT", "seeded")
+# SEEDED_KIND=harmless: the changes under /verif/harmless/<id>/ keep the property true; the expected
+# outcome is exit 0 (reported as QUIET), exit 1 is a false ALARM
+KIND = os.environ.get("SEEDED_KIND", "seeded")
 
 
 def sh(cmd, **kw):
@@ -38,7 +41,7 @@ def ensure_wt():
 
 
 def run_one(sid, tier, props=None):
-    d = os.path.join(VERIF, "seeded", sid)
+    d = os.path.join(VERIF, KIND, sid)
     meta = json.load(open(os.path.join(d, "meta.json")))
     props = props or meta.get("checks") or [meta["property"]]
     ensure_wt()
@@ -53,13 +56,13 @@ def run_one(sid, tier, props=None):
         p = sh([os.path.join(VERIF, "bin", "check"), prop, "--tier", tier], env=env, cwd=VERIF)
         viol = [l for l in p.stdout.splitlines() if l.startswith("VIOLATION")]
         if p.returncode == 1 and viol:
-            verdict = "DETECTED"
+            verdict = "DETECTED" if KIND == "seeded" else "ALARM"
         elif p.returncode == 0:
-            verdict = "MISSED"
+            verdict = "MISSED" if KIND == "seeded" else "QUIET"
         else:
             verdict = f"TOOL-ERROR rc={p.returncode}"
         print(f"{sid} {prop} {tier}: {verdict} ({time.time()-t0:.0f}s) {viol[0] if viol else ''}", flush=True)
-        if verdict.startswith("TOOL"):
+        if verdict.startswith("TOOL") or verdict == "ALARM":
             print(p.stdout[-2500:])
         res[prop] = verdict
     sh(["git", "-C", WT, "checkout", "--", "."])
@@ -80,8 +83,8 @@ def main():
         return 0
     ids = a.ids
     if a.cmd == "all":
-        ids = sorted(x for x in os.listdir(os.path.join(VERIF, "seeded"))
-                     if os.path.exists(os.path.join(VERIF, "seeded", x, "meta.json")))
+        ids = sorted(x for x in os.listdir(os.path.join(VERIF, KIND))
+                     if os.path.exists(os.path.join(VERIF, KIND, x, "meta.json")))
     # one user of a given scratch worktree / alt build at a time (concurrent runs would reset
     # each other's patch mid-build)
     import fcntl
@@ -91,7 +94,7 @@ def main():
     for sid in ids:
         summary[sid] = run_one(sid, a.tier, a.props.split(",") if a.props else None)
     # committed summary: latest verdict per seed and tier (history notes are kept by hand)
-    rp = os.path.join(VERIF, "seeded", "RESULTS.json")
+    rp = os.path.join(VERIF, KIND, "RESULTS.json")
     try:
         allres = json.load(open(rp))
     except Exception:
